@@ -33,6 +33,18 @@ func templateAgreement(c *Ctx, r *Report, rule string) {
 			}
 		}
 	}
+	// ... or into a method the reference tree does not have
+	helperMethods := map[string]*ast.FuncDecl{}
+	for _, file := range pkg.Syntax {
+		for _, d := range file.Decls {
+			if fd, ok := d.(*ast.FuncDecl); ok && fd.Recv != nil && fd.Body != nil && len(fd.Recv.List) == 1 {
+				rt := strings.TrimPrefix(types_ExprString(fd.Recv.List[0].Type), "*")
+				if !referenceFuncs["fat2."+rt+"."+fd.Name.Name] {
+					helperMethods[fd.Name.Name] = fd
+				}
+			}
+		}
+	}
 	for _, file := range pkg.Syntax {
 		for _, d := range file.Decls {
 			fd, ok := d.(*ast.FuncDecl)
@@ -55,25 +67,48 @@ func templateAgreement(c *Ctx, r *Report, rule string) {
 						}
 					}
 				}
+				// the raw record: a value of an anonymous struct type (written in place, or through an alias) with json tags
+				addTags := func(t types.Type) {
+					if t == nil {
+						return
+					}
+					t = types.Unalias(t)
+					if p, ok := t.(*types.Pointer); ok {
+						t = types.Unalias(p.Elem())
+					}
+					st, ok := t.(*types.Struct)
+					if !ok {
+						return
+					}
+					for i := 0; i < st.NumFields(); i++ {
+						jt := reflect.StructTag(st.Tag(i)).Get("json")
+						parts := strings.Split(jt, ",")
+						if parts[0] == "" || parts[0] == "-" {
+							continue
+						}
+						tags[parts[0]] = true
+						for _, p := range parts[1:] {
+							if p == "omitempty" {
+								optional[parts[0]] = true
+							}
+						}
+					}
+				}
+				if call, ok := nd.(*ast.CallExpr); ok {
+					if sel, ok := call.Fun.(*ast.SelectorExpr); ok {
+						if h := helperMethods[sel.Sel.Name]; h != nil && !seenHelper["."+sel.Sel.Name] {
+							seenHelper["."+sel.Sel.Name] = true
+							ast.Inspect(h.Body, inspect)
+						}
+					}
+				}
 				switch x := nd.(type) {
 				case *ast.CompositeLit:
-					if st, ok := x.Type.(*ast.StructType); ok {
-						for _, f := range st.Fields.List {
-							if f.Tag == nil {
-								continue
-							}
-							tag, _ := strconv.Unquote(f.Tag.Value)
-							jt := reflect.StructTag(tag).Get("json")
-							parts := strings.Split(jt, ",")
-							if parts[0] == "" || parts[0] == "-" {
-								continue
-							}
-							tags[parts[0]] = true
-							for _, p := range parts[1:] {
-								if p == "omitempty" {
-									optional[parts[0]] = true
-								}
-							}
+					addTags(pkg.TypesInfo.TypeOf(x))
+				case *ast.ValueSpec:
+					for _, nm := range x.Names {
+						if obj := pkg.TypesInfo.Defs[nm]; obj != nil {
+							addTags(obj.Type())
 						}
 					}
 				case *ast.CallExpr:
@@ -81,6 +116,11 @@ func templateAgreement(c *Ctx, r *Report, rule string) {
 						if bl, ok := x.Args[0].(*ast.BasicLit); ok && bl.Kind == token.STRING {
 							s, _ := strconv.Unquote(bl.Value)
 							if strings.Contains(s, "\":") {
+								templates = append(templates, s)
+							}
+						} else if tv, ok := pkg.TypesInfo.Types[x.Args[0]]; ok && tv.Value != nil && tv.Value.Kind() == constant.String {
+							// a named constant holding the template
+							if s := constant.StringVal(tv.Value); strings.Contains(s, "\":") {
 								templates = append(templates, s)
 							}
 						}
@@ -221,12 +261,12 @@ func propC20(c *Ctx, r *Report) {
 				switch x := k.(type) {
 				case *ssa.Extract: // range value over validPTickerStrings
 					if nx, ok := x.Tuple.(*ssa.Next); ok && x.Index == 2 {
-						if rg, ok := nx.Iter.(*ssa.Range); ok && valuePath(rg.X) == "fat2.validPTickerStrings" {
+						if rg, ok := nx.Iter.(*ssa.Range); ok && valuePath(rg.X) == tickerStringsVar(c) {
 							direct = true
 						}
 					}
 				case *ssa.UnOp:
-					if ia, ok := x.X.(*ssa.IndexAddr); ok && sliceHas(ia.X, func(v ssa.Value) bool { return valuePath(v) == "fat2.validPTickerStrings" }) {
+					if ia, ok := x.X.(*ssa.IndexAddr); ok && sliceHas(ia.X, func(v ssa.Value) bool { return valuePath(v) == tickerStringsVar(c) }) {
 						direct = true
 					}
 				}
@@ -263,7 +303,7 @@ func propC20(c *Ctx, r *Report) {
 				}
 				sc := &Scenario{
 					Lens:  map[string]AVal{"fat2.Transaction.Transfers": cInt(ntr)},
-					Paths: map[string]AVal{"fat2.Transaction.Conversion": cInt(conv), "fat2.TypedAddressAmountTuple.Type": cInt(inType), "fat2.TypedAddressAmountTuple.Address": sym("addr"), "fat2.coinbase": sym("coinbase"), "fat2.Transaction.Input": sym("input")},
+					Paths: map[string]AVal{"fat2.Transaction.Conversion": cInt(conv), "fat2.TypedAddressAmountTuple.Type": cInt(inType), "fat2.TypedAddressAmountTuple.Address": sym("addr"), fat2VarOfType(c, func(t types.Type) bool { return strings.HasSuffix(t.String(), "factom.FAAddress") }, "fat2.coinbase"): sym("coinbase"), "fat2.Transaction.Input": sym("input")},
 					Phis:  map[string]AVal{"init:fat2.TypedAddressAmountTuple.Amount": cUint(0)},
 					Order: func(a, b AVal) (int, bool) {
 						if a.K == ASym && b.K == ASym {
@@ -313,7 +353,7 @@ func propC20(c *Ctx, r *Report) {
 			}
 			fromTable := func(v ssa.Value) bool {
 				lk, ok := v.(*ssa.Lookup)
-				return ok && valuePath(lk.X) == "fat2.validPTickers"
+				return ok && valuePath(lk.X) == tickerMapVar(c)
 			}
 			okSrc := sliceHas(st.Val, fromTable)
 			if !okSrc {
@@ -374,16 +414,31 @@ func propC20(c *Ctx, r *Report) {
 	{
 		// every numeric parse has its error checked
 		n := 0
-		for _, ci := range callsOf(ftf) {
-			name := calleeName(ci.Common())
-			if !strings.HasPrefix(name, "strconv.") || errResultIndex(ci.Common().Signature()) < 0 {
-				continue
+		fam := c.family(ftf) // the conversion may be split into stages
+		for _, g := range fam {
+			for _, ci := range callsOf(g) {
+				name := calleeName(ci.Common())
+				if !strings.HasPrefix(name, "strconv.") || errResultIndex(ci.Common().Signature()) < 0 {
+					continue
+				}
+				n++
+				ef := &errflow{c: c, sync: c.Sync}
+				site := &ErrSite{Fn: g, Call: ci, Callee: name, Ord: n}
+				ef.analyse(g, ci, site)
+				r.check(site.Problem == "", "C20/cli-amounts", fmt.Sprintf("FactoidToFactoshi -> %s %s", name, ord(n)), c.ipos(ci), "error checked", "the error of "+name+" is discarded ("+site.Problem+"): an amount that does not fit is silently replaced (e.g. \"99999999999999999999\" becomes 0)")
 			}
-			n++
-			ef := &errflow{c: c, sync: c.Sync}
-			site := &ErrSite{Fn: ftf, Call: ci, Callee: name, Ord: n}
-			ef.analyse(ftf, ci, site)
-			r.check(site.Problem == "", "C20/cli-amounts", fmt.Sprintf("FactoidToFactoshi -> %s %s", name, ord(n)), c.ipos(ci), "error checked", "the error of "+name+" is discarded ("+site.Problem+"): an amount that does not fit is silently replaced (e.g. \"99999999999999999999\" becomes 0)")
+			if g != ftf {
+				// a stage's own error must reach the caller of FactoidToFactoshi too
+				for _, cs := range c.familyCallSites(g) {
+					if errResultIndex(cs.Common().Signature()) < 0 {
+						continue
+					}
+					ef := &errflow{c: c, sync: c.Sync}
+					site := &ErrSite{Fn: cs.Parent(), Call: cs, Callee: fname(g), Ord: 1}
+					ef.analyse(cs.Parent(), cs, site)
+					r.check(site.Problem == "", "C20/cli-amounts", fmt.Sprintf("%s -> %s", fname(cs.Parent()), fname(g)), c.ipos(cs), "error checked", "the error of the stage is discarded ("+site.Problem+")")
+				}
+			}
 		}
 		if n == 0 {
 			r.viol("C20/cli-amounts", "numeric parses in FactoidToFactoshi", c.pos(ftf.Pos()), "no strconv parse call found")
@@ -391,30 +446,32 @@ func propC20(c *Ctx, r *Report) {
 		// the scaling multiplication by 1e8 is overflow-guarded
 		var muls []*ssa.BinOp
 		floatOps := 0
-		allInstrs(ftf, func(ins ssa.Instruction) {
-			if bo, ok := ins.(*ssa.BinOp); ok {
-				if bo.Op == token.MUL && isIntType(bo.Type()) {
-					muls = append(muls, bo)
+		for _, g := range fam {
+			allInstrs(g, func(ins ssa.Instruction) {
+				if bo, ok := ins.(*ssa.BinOp); ok {
+					if bo.Op == token.MUL && isIntType(bo.Type()) {
+						muls = append(muls, bo)
+					}
+					if isFloatType(bo.Type()) {
+						floatOps++
+					}
 				}
-				if isFloatType(bo.Type()) {
+				if ci, ok := ins.(ssa.CallInstruction); ok {
+					nm := calleeName(ci.Common())
+					if nm == "strconv.ParseFloat" || strings.HasPrefix(nm, "math.") {
+						floatOps++
+					}
+				}
+				if cv, ok := ins.(*ssa.Convert); ok && isFloatType(cv.X.Type()) {
 					floatOps++
 				}
-			}
-			if ci, ok := ins.(ssa.CallInstruction); ok {
-				nm := calleeName(ci.Common())
-				if nm == "strconv.ParseFloat" || strings.HasPrefix(nm, "math.") {
-					floatOps++
-				}
-			}
-			if cv, ok := ins.(*ssa.Convert); ok && isFloatType(cv.X.Type()) {
-				floatOps++
-			}
-		})
+			})
+		}
 		r.check(floatOps == 0, "C20/cli-amounts", "no floating-point arithmetic in the amount conversion", c.pos(ftf.Pos()), "", fmt.Sprintf("%d floating-point operations/calls: a float64 has 53 bits of mantissa, so large amounts are rounded silently", floatOps))
 		for i, m := range muls {
 			guarded := false
 			// a dominating comparison of the multiplicand with a constant bound, failing side returns an error
-			for _, b := range ftf.Blocks {
+			for _, b := range m.Parent().Blocks {
 				cond, _, _ := condEdge(b)
 				cb, ok := cond.(*ssa.BinOp)
 				if !ok || !(cb.Op == token.GTR || cb.Op == token.LSS || cb.Op == token.GEQ || cb.Op == token.LEQ) {
@@ -600,4 +657,50 @@ func ruleInputAmountBound(c *Ctx, r *Report, rule string) {
 		}
 		r.check(le.Found && got == want, rule, "input amount "+cs.name, c.pos(tbv.Pos()), want, "loop exits {"+got+"}, expected {"+want+"}")
 	}
+}
+
+// tickerStringsVar / tickerMapVar: the package-level list of ticker names and the name -> ticker lookup table of
+// package fat2, found by their types (there is one of each), not by their names.
+func tickerStringsVar(c *Ctx) string {
+	return fat2VarOfType(c, func(t types.Type) bool {
+		switch x := t.Underlying().(type) {
+		case *types.Slice:
+			b, ok := x.Elem().Underlying().(*types.Basic)
+			return ok && b.Kind() == types.String
+		case *types.Array:
+			b, ok := x.Elem().Underlying().(*types.Basic)
+			return ok && b.Kind() == types.String
+		}
+		return false
+	}, "fat2.validPTickerStrings")
+}
+
+func tickerMapVar(c *Ctx) string {
+	return fat2VarOfType(c, func(t types.Type) bool {
+		m, ok := t.Underlying().(*types.Map)
+		if !ok {
+			return false
+		}
+		b, ok := m.Key().Underlying().(*types.Basic)
+		return ok && b.Kind() == types.String && strings.HasSuffix(m.Elem().String(), "fat2.PTicker")
+	}, "fat2.validPTickers")
+}
+
+func fat2VarOfType(c *Ctx, match func(types.Type) bool, fallback string) string {
+	p := c.SPkg["fat2"]
+	if p == nil {
+		return fallback
+	}
+	var found []string
+	for name, m := range p.Members {
+		if g, ok := m.(*ssa.Global); ok {
+			if pt, ok := g.Type().(*types.Pointer); ok && match(pt.Elem()) {
+				found = append(found, "fat2."+name)
+			}
+		}
+	}
+	if len(found) == 1 {
+		return found[0]
+	}
+	return fallback
 }
